@@ -26,7 +26,8 @@ RULE = ("simulated style-based elections (all / disjoint / nested / random style
         "skipped; distinct = hash of (spec, sizes)")
 REQUIRED = ["contract:CVR.consistent_sampling", "draws_checked", "thresholds_checked", "data_prefix_checked",
             "determinism_checked", "vote_independence_checked", "draws_with_skipped_cards", "sizes:ones", "sizes:all",
-            "sizes:one_exhausted", "sizes:random", "sizes:some_zero", "draws_with_a_zero_size_contest_among_positive_ones", "draws_with_phantoms_selected", "cards_listing_no_contest_present", "polling_order_checked", "mismatched_sample_refused", "second_draw_same_contest_objects", "draw_after_sample_numbers_reassigned"]
+            "sizes:one_exhausted", "sizes:random", "sizes:some_zero", "draws_with_a_zero_size_contest_among_positive_ones", "continued_draws_checked",
+            "continued_draw_with_some_sizes_lowered_and_some_raised", "draws_with_phantoms_selected", "cards_listing_no_contest_present", "polling_order_checked", "mismatched_sample_refused", "second_draw_same_contest_objects", "draw_after_sample_numbers_reassigned"]
 ASSUMPTIONS = ["distinct sample numbers; n_c <= number of cards listing c; dict keys equal contest ids; thresholds for "
                "n_c = 0 are unconstrained"]
 N_CASES = {"quick": 19200, "thorough": 200000}
@@ -52,16 +53,20 @@ def pre_sampling(a, k):
     prev = k.get("sampled_cvr_indices", a[3] if len(a) > 3 else None)
     return {"styles": [set(c.votes.keys()) for c in cvr_list], "nums": [c.sample_num for c in cvr_list],
             "sizes": {con.id: con.sample_size for con in contests.values()}, "fresh": prev is None,
+            "prev": None if prev is None else [int(i) for i in prev],
             "was_sampled": [bool(c.sampled) for c in cvr_list]}
 
 
 def post_sampling(rec, result, a, k, old):
-    if not old["fresh"]:
-        return  # continuation is C10's business
     cvr_list = k.get("cvr_list", a[1] if len(a) > 1 else None)
     contests = k.get("contests", a[2] if len(a) > 2 else None)
     case = rec.current_case
     want, thr, per = reference_sample(old["styles"], old["nums"], old["sizes"])
+    if not old["fresh"]:
+        # a continued draw keeps the cards selected earlier (whatever the sizes are now): the reported list is the union
+        # of those and every contest's first n_c cards, still in sample-number order, thresholds as in a fresh draw
+        want = sorted(set(want) | set(old["prev"]), key=lambda i: old["nums"][i])
+        rec.count("continued_draws_checked")
     got = [int(i) for i in result]
     rec.count("draws_checked")
     if len(set(got)) != len(got):
@@ -201,6 +206,27 @@ def run_case(es, rec):
         rec.count("second_draw_same_contest_objects")
         sim.set_sizes(sizes)
         ok, _idx3 = rec.guard("c07.call:consistent_sampling", sim.draw)
+        if not ok:
+            return
+
+    # ---- a continued draw after sizes were re-estimated: some contests ask for fewer cards (confirmed: 0) while others
+    #      escalate; the earlier cards stay, and the list is still reported in sample-number order ------------------------
+    sizes3 = {}
+    for cid, n in sizes.items():
+        avail = sum(1 for c in sim.cvr_list if c.has_contest(cid))
+        r = rng.random()
+        sizes3[cid] = 0 if r < 0.3 else max(0, n // 2) if r < 0.5 else min(avail, n + rng.randint(0, 4))
+    if any(v > 0 for v in sizes3.values()):
+        sim.set_sizes(sizes3)
+        ok, _ = rec.guard("c07.call:consistent_sampling:continued", sim.draw, list(idx))
+        if not ok:
+            return
+        if any(sizes3[c] < sizes[c] for c in sizes) and any(sizes3[c] > sizes[c] for c in sizes):
+            rec.count("continued_draw_with_some_sizes_lowered_and_some_raised")
+        sim.set_sizes(sizes)
+        for c in sim.cvr_list:
+            c.sampled = False
+        ok, _ = rec.guard("c07.call:consistent_sampling", sim.draw)
         if not ok:
             return
 
